@@ -184,17 +184,28 @@ Definition params_equal (a b : option (list (string * pval))) : bool :=
   | _, _ => false
   end.
 
+(* _same_constant (a4bd890): same canonical type and equal value -- 1, 1.0 and True are different constants *)
+Definition same_constant (a b : pval) : bool := pty_eqb (type_of a) (type_of b) && py_eq a b.
+
+(* the entry of d whose key Python's dict lookup finds for k *)
+Fixpoint pdict_find (d : list (pval * pval)) (k : pval) : option (pval * pval) :=
+  match d with [] => None | (k', v) :: t => if py_eq k k' then Some (k', v) else pdict_find t k end.
+
 (* PreTerm.is_equal, class by class.
-   ListTerm.is_equal is `self.value == other.value` on two lists of Value OBJECTS: Python compares the
-   elements with Value.__eq__, which builds an Expression object (truthy) -- so two ListTerms of the same
-   length always compare equal.  That is what the code does, and what is transcribed here.
+   Value: _same_constant.  ListTerm: same length and element by element _same_constant.  DictTerm: same length and
+   every key of self found in other with the same key constant and the same value constant.
    Expression.is_equal compares op, inline, params and the arguments; it does not look at `method`. *)
 Fixpoint is_equal (a b : expr) : bool :=
   match a, b with
   | ECol x, ECol y => String.eqb x y
-  | EVal x, EVal y => py_eq x y
-  | EList x, EList y => Nat.eqb (List.length x) (List.length y)
-  | EDict x, EDict y => Nat.eqb (List.length x) (List.length y) && pdict_sub x y && pdict_sub y x
+  | EVal x, EVal y => same_constant x y
+  | EList x, EList y => list_eqb same_constant x y
+  | EDict x, EDict y =>
+      Nat.eqb (List.length x) (List.length y)
+      && forallb (fun kv => match pdict_find y (fst kv) with
+                            | Some (k', v') => same_constant (fst kv) k' && same_constant (snd kv) v'
+                            | None => false
+                            end) x
   | EOp o i _ p xs, EOp o' i' _ p' ys =>
       String.eqb o o' && Bool.eqb i i' && params_equal p p' && list_eqb is_equal xs ys
   | _, _ => false
